@@ -3,6 +3,7 @@
 HARNESSES = {
     "c18_shared": {"src": ["harness/c18_shared.cpp", "engine/sched.cpp"]},
     "c18_fit_sched": {"src": ["harness/c18_fit_sched.cpp", "engine/sched.cpp"]},
+    "c18_wfit_sched": {"src": ["harness/c18_wfit_sched.cpp", "engine/sched.cpp"]},
 }
 
 CHECKS = {
@@ -10,10 +11,13 @@ CHECKS = {
         "level": "model_checking",
         "engine": "E3 lattice + E1 sched + ThreadSanitizer",
         "technique": "sharing-pattern x thread-count lattice with bitwise comparison against the solo call; the same bodies "
-                     "under ThreadSanitizer; horizon-bounded schedule exploration of a model fit",
+                     "under ThreadSanitizer; deviation-bounded schedule exploration of a model fit; preemption-bounded schedule "
+                     "exploration of one weak-learner fit (which worker's cache scores which feature chunk)",
         "level_text": "every deterministic solver, every loss, dataset views and a fitted model are used concurrently from 2..16 "
                       "threads through their const interface and every result is compared bit for bit with the call executed "
-                      "alone; full fits are repeated for pool sizes {1,2,16}^2; the tsan build of the same bodies must be silent",
+                      "alone; full fits are repeated for pool sizes {1,2,16}^2; the tsan build of the same bodies must be silent; every "
+                      "schedule (<= 2, thorough 4 preemptions, 2 workers; 1 preemption, 3 workers) of 8 weak learners x 3 datasets "
+                      "must fit the learner of the one-thread fit",
         "level_note": "the data-race clause rests on a dynamic race detector over enumerated configurations (stated in DESIGN.md "
                       "§4 C18 and §7); bitwise equality is decided on the schedules the OS produced, plus the bounded schedule "
                       "exploration of the pool-level bodies (C17, C09, C13)",
@@ -37,6 +41,14 @@ CHECKS = {
              "share": 0.3, "crash_is_violation": True,
              "what": "whole fits (ridge, gboost) with 2-worker pools under the scheduler: every schedule of the whole fit with at most 1 "
                      "non-default scheduling choice, on a 16-sample (quick) / 24-sample (thorough) dataset"},
+            {"name": "wfit-sched", "harness": "c18_wfit_sched", "args_quick": ["--budget", "2", "--maxW", "2"],
+             "args_thorough": ["--budget", "4", "--maxW", "2"], "share": 0.2, "crash_is_violation": True,
+             "what": "one weak-learner fit (8 learners x 3 datasets with many-class categorical features) with W workers under the "
+                     "scheduler: every distribution of feature chunks over the workers' caches selects the feature, score and "
+                     "predictions of the one-thread fit"},
+            {"name": "wfit-sched-w3", "harness": "c18_wfit_sched", "tiers": ["thorough"], "args": ["--budget", "1", "--maxW", "3"],
+             "share": 0.3, "crash_is_violation": True,
+             "what": "the same with up to 3 workers and 1 preemption"},
         ],
     },
 }
